@@ -146,6 +146,12 @@ impl Script {
                         _ => cursor.read_u32::<LittleEndian>()? as usize,
                     };
 
+                    // The declared length must fit in the rest of the script (do not allocate on the input's say-so)
+                    let remaining = bytes.len().saturating_sub(cursor.position() as usize);
+                    if data_length > remaining {
+                        return Err(BSVErrors::DeserialiseScript(format!("OP_PUSHDATA declares {} bytes but only {} remain", data_length, remaining)));
+                    }
+
                     let mut data = vec![0; data_length];
                     if let Err(e) = cursor.read(&mut data) {
                         return Err(BSVErrors::DeserialiseScript(format!("Failed to read OP_PUSHDATA data {}", e)));
